@@ -68,7 +68,40 @@ def build_input(case):
     return items
 
 
+def in_model_domain(case):
+    """requests made through request_encode_body draw a random boundary: judged by the oracle only"""
+    return not case.get("via_request")
+
+
+def impl_via_request(case):
+    """two requests through RequestMethods.request_encode_body with one and the same headers object: what does the second one send?"""
+    import urllib3
+    from urllib3._request_methods import RequestMethods
+    sent = []
+
+    class Rec(RequestMethods):
+        def urlopen(self, method, url, body=None, headers=None, **kw):
+            sent.append((bytes(body), dict(headers or {})))
+            return None
+    hk = case["via_request"]
+    hdrs = urllib3.HTTPHeaderDict({"X-A": "1"}) if hk == "hd" else ({"X-A": "1"} if hk == "dict" else None)
+    r = Rec(headers=hdrs) if hk == "default" else Rec()
+    if hk == "default":
+        r.headers = urllib3.HTTPHeaderDict({"X-A": "1"})
+        hdrs = None
+    try:
+        for _ in range(2):
+            r.request_encode_body("POST", "/u", fields=build_input(case), headers=hdrs)
+    except UnicodeEncodeError:
+        return [0]
+    body, h = sent[-1]
+    ct = [v for k, v in h.items() if k.lower() == "content-type"]
+    return [1, list(body), S(ct[0] if ct else "")]
+
+
 def impl(case):
+    if case.get("via_request"):
+        return impl_via_request(case)
     import urllib3
     try:
         body, ct = urllib3.encode_multipart_formdata(build_input(case), boundary=case["boundary"])
@@ -149,10 +182,16 @@ def oracle(case, obs):
         ok = all(enc_ok(f["name"]) and (f["filename"] is None or enc_ok(f["filename"])) and (f["data"][0] != "s" or enc_ok(f["data"][1])) for f in fields)
         return None if not ok else "UnicodeEncodeError for encodable input"
     body, ct = bytes(obs[1]), "".join(chr(c) for c in obs[2])
-    if ct != "multipart/form-data; boundary=" + case["boundary"]:
+    boundary = case["boundary"]
+    if case.get("via_request"):
+        # a random boundary: the one the body really starts with
+        boundary = body[2:body.index(b"\r\n")].decode("latin-1") if body.startswith(b"--") and b"\r\n" in body else ""
+        if ct != "multipart/form-data; boundary=" + boundary:
+            return "the second request through request_encode_body sent Content-Type %r, its body uses the boundary %r" % (ct, boundary)
+    elif ct != "multipart/form-data; boundary=" + case["boundary"]:
         return "returned content type %r does not name the boundary used" % ct
     try:
-        parts = parse_multipart(body, case["boundary"].encode("latin-1"))
+        parts = parse_multipart(body, boundary.encode("latin-1"))
     except ValueError as e:
         return "encoded body is not well-formed multipart: %s" % e
     if len(parts) != len(fields):
@@ -259,6 +298,11 @@ def cases(rng, tier):
         as_fn = (i % 3 == 0)
         f = {"name": "n" if as_fn else n, "filename": n if as_fn else None, "ctype": "text/plain" if as_fn else None, "data": ["s", "v"]}
         out.append({"boundary": b, "shape": ["list", "rf", "dict"][i % 3], "fields": [f]})
+    # the same headers object used for two requests made through request_encode_body
+    for hk in ("hd", "dict", "none", "default"):
+        for fs in ([{"name": "a", "filename": None, "ctype": None, "data": ["s", "v"]}],
+                   [{"name": "f", "filename": "x.txt", "ctype": "text/plain", "data": ["b", "0001"]}, {"name": "a", "filename": None, "ctype": None, "data": ["s", "v"]}]):
+            out.append({"boundary": BOUNDARIES[0], "shape": "list", "fields": fs, "via_request": hk})
     nrand = 8000 if tier == "quick" else 150000
     for _ in range(nrand):
         b = rng.choice(BOUNDARIES)
